@@ -22,6 +22,12 @@ def _is_int(x):
 def index_mapping(index, shape):
     ndim = len(shape)
     idx = index if isinstance(index, tuple) else (index,)
+    if idx and isinstance(idx[0], (bool, np.bool_)) and all(it is Ellipsis or (isinstance(it, slice) and it == slice(None)) for it in idx[1:]) \
+            and sum(1 for it in idx[1:] if it is Ellipsis) <= 1:
+        # a leading scalar boolean (a 0-d mask) followed by full slices only: like None, but the new axis has length 1 (True) or 0 (False)
+        mapping, pshape, feat = index_mapping((None,) + tuple(idx[1:]), shape)
+        pshape = (1 if idx[0] else 0,) + tuple(pshape[1:])
+        return mapping, pshape, {**feat, "scalar_bool": True}
     items = []  # (kind, payload, consumed axes)
     n_ell = 0
     for it in idx:
